@@ -4,7 +4,7 @@ import sys
 
 from . import framework
 from .framework import RULES
-from . import rules_cache, rules_guard, rules_fs, rules_ef, rules_sd, rules_walk, rules_crc, rules_codec, rules_lfn, rules_iv  # noqa: F401  (registers rules)
+from . import rules_cache, rules_guard, rules_fs, rules_ef, rules_sd, rules_walk, rules_crc, rules_codec, rules_lfn, rules_iv, rules_r3  # noqa: F401  (registers rules)
 
 PROPS = {}
 
@@ -14,15 +14,19 @@ EXTRA = {
     "FT9": ["C01", "C09"],
     "OR1": ["C01", "C09"],   # a "new" cluster that was not verified free belongs to another file
     "OR4": ["C03", "C01"],   # recorded length never runs ahead of the data/chain actually written
-    "LS4": ["C04", "C07"],   # walker extent decides which blocks a create may write; lookup extent decides 'exists'
+    "LS4": ["C04", "C07", "C02"],   # walker extent decides which blocks a create may write; lookup extent decides 'exists'
     "CD1": ["C09"],          # the flushed entry must encode the start cluster correctly
     "CD4": ["C09"],
     "SD9": ["C12"],          # framing of data packets decides which bytes are taken as the next block
     "SD10": ["C12"],
-    "FT5": ["C01"],
+    "FT5": ["C01", "C10"],   # a cluster handed out beyond the volume end puts an out-of-range cluster into a live chain
+    "OR6": ["C11"],          # delete frees the chain only after the entry is gone: a failed delete never leaves a live entry on freed clusters
     "BM1": ["C02"],
     "MD9x": ["C09"],
-    "EF1": ["C07", "C03"],   # create only when the name is definitively absent (no error masquerading as NotFound): unique names
+    "EF1": ["C07", "C03"],
+    "SK2": ["C03"],          # extending a chain from a stale cursor overwrites the link of an earlier cluster: chain shorter than the size
+    "OR5": ["C06"],          # stale bytes in a partly initialised directory cluster are listed / found as entries
+    "SD2": ["C12"],          # a frame without a valid CRC-7 is rejected by cards that check it (CMD0/CMD8 always do)   # create only when the name is definitively absent (no error masquerading as NotFound): unique names
 }
 for _r, _ps in EXTRA.items():
     if _r in RULES:
